@@ -776,6 +776,9 @@ type serverHelloMsg struct {
 	// [uTLS]
 	nextProtoNeg bool
 	nextProtos   []string
+	// utlsApplicationSettings: the ServerHello itself carries an application_settings
+	// extension (either code point). ALPS belongs in the TLS 1.3 EncryptedExtensions.
+	utlsApplicationSettings bool
 }
 
 func (m *serverHelloMsg) marshal() ([]byte, error) {
@@ -1025,6 +1028,9 @@ func (m *serverHelloMsg) unmarshal(data []byte) bool {
 				return false
 			}
 			m.serverNameAck = true
+		case utlsExtensionApplicationSettings, utlsExtensionApplicationSettingsNew: // [uTLS]
+			m.utlsApplicationSettings = true
+			continue
 		default:
 			// Ignore unknown extensions.
 			continue
